@@ -76,6 +76,26 @@ static void c10_run(const Case &c, Result &r) {
 static void awkward_names(Tape &t, Model &m, bool for_mps) {
   static const char *bad_lp[] = {"2x", "a b", "x*y", "c[1]", "9", ".dot", "x^2", "na<me", "MIN", "free", "inf", "st", "x_1", "c_1", "obj", "e9", "E-24", "end"};
   static const char *bad_mps[] = {"2x", "x*y", "c[1]", "9", ".dot", "x^2", "MIN", "free", "RHS", "ROWS", "x_1", "c_1", "obj", "e9", "RANGES", "BOUND"};
+  // two names whose repairs meet: a name that is replaced by its index (illegal character / reserved word) and a
+  // digit-leading name spelling that very index -- both repairs ask for "<prefix><index>" -- optionally with the
+  // generated name itself already taken by a third entry
+  if (t.chance(1, 3)) {
+    static const char *idx_bad[] = {"x*y", "c[1]", "a b", "free", "inf", "na<me"};
+    bool row = t.coin();
+    int cnt = row ? m.m() : m.n();
+    if (cnt >= 2) {
+      int j = (int)t.below((uint32_t)cnt), k2 = (int)t.below((uint32_t)cnt - 1);
+      if (k2 >= j) k2++;
+      std::string bad = idx_bad[t.below(for_mps ? 2 : 6)], digits = std::to_string(j);
+      std::string taken = std::string(row ? "c" : "x") + digits;
+      bool third = cnt >= 3 && t.coin();
+      auto has = [&](const std::string &nm) { return row ? m.rowindex(nm) >= 0 : m.colindex(nm) >= 0; };
+      if (!has(bad) && !has(digits) && !has(taken)) {
+        if (row) { m.rows[j].name = bad; m.rows[k2].name = digits; } else { m.cols[j].name = bad; m.cols[k2].name = digits; }
+        if (third) { int k3 = 0; while (k3 == j || k3 == k2) k3++; if (row) m.rows[k3].name = taken; else m.cols[k3].name = taken; }
+      }
+    }
+  }
   int k = (int)t.below(4);
   for (int s = 0; s < k; s++) {
     bool row = t.coin();
